@@ -620,6 +620,35 @@ func traceConcStore(t *testing.T, o opts) {
 					updEStale = 1
 				}
 			}
+			// the first read through every handle after the completed refresh, made while lookups of
+			// ever new names keep the store's lock busy (each installs a value and writes the slow
+			// cache under it): however busy the lock, a handle yields what the refresh installed
+			stopHammer := make(chan struct{})
+			var hw sync.WaitGroup
+			// (lookups of ever new names keep installing values and writing the slow cache under
+			// the store's lock: the lock is held for a good part of the time)
+			for k := 0; k < 3; k++ {
+				hw.Add(1)
+				go func() {
+					defer hw.Done()
+					defer func() { recover() }()
+					for j := 0; ; j++ {
+						select {
+						case <-stopHammer:
+							return
+						default:
+						}
+						nm := fmt.Sprintf("busy-%d-%d", k, j)
+						g.mu.Lock()
+						g.cur[nm] = 1
+						g.mu.Unlock()
+						cx, cancel := context.WithTimeout(context.Background(), 5*time.Second)
+						st.LookupSecret(cx, nm)
+						cancel()
+					}
+				}()
+			}
+			time.Sleep(2 * time.Millisecond)
 			hmu.RLock()
 			for n, hd := range handles {
 				func() {
@@ -634,6 +663,32 @@ func traceConcStore(t *testing.T, o opts) {
 				}()
 			}
 			hmu.RUnlock()
+			// a handle nobody else reads (no other reader refreshes whatever it may remember): after
+			// each completed refresh its next read - made while the lock is busy - yields the new
+			// version
+			g.mu.Lock()
+			g.cur["quiet"] = 1
+			g.mu.Unlock()
+			if hq, err := st.LookupSecret(context.Background(), "quiet"); err == nil && hq != nil {
+				func() {
+					defer func() { recover() }()
+					hq.Get()
+					for r := 0; r < 8; r++ {
+						g.bump("quiet")
+						if st.Refresh(context.Background()) != nil {
+							continue
+						}
+						g.mu.Lock()
+						want := fmt.Sprintf("quiet#%d", g.cur["quiet"])
+						g.mu.Unlock()
+						if string(hq.Get()) != want {
+							staleAfter++
+						}
+					}
+				}()
+			}
+			close(stopHammer)
+			hw.Wait()
 		}
 		// a pinned name must still be there after all the expiry sweeps
 		dropped := 0
